@@ -24,7 +24,7 @@ var domTags = []string{"div", "p", "span", "b", "i", "ul", "li", "a", "br", "img
 var domSpecialTags = []string{"template", "script", "style"}
 var domAttrNames = []string{"class", "id", "title", "href", "data-x", "alt", "style", "name", "value", "aria-label", "x:y"}
 var domDirectiveAttrs = []string{"v-if", "v-for", "v-html", "v-show", "v-once", "v-once-id", "v-keep", "v-pre", "[lit]", "[v-if]", ":bound", "v-bind:x", "@click"}
-var hostileStrings = []string{"", "word", "a b", "a < b", "a > b", "x & y", "&amp;", "&lt;b&gt;", "<b>x</b>", `"q"`, "'s'", `"><script>x</script>`, "a;b", "&#39;", "&#", "{{ x }}", "  padded  ", "\n", "line1\nline2", "&copy;", "&amp", "é☃", "</p>", "<!-- c -->", "a&b;c", "1 < 2 && 3 > 2"}
+var hostileStrings = []string{"", "word", "a b", "a < b", "a > b", "x & y", "&amp;", "&lt;b&gt;", "<b>x</b>", `"q"`, "'s'", `"><script>x</script>`, "a;b", "&#39;", "&#", "{{ x }}", "  padded  ", "\n", "line1\nline2", "&copy;", "&amp", "é☃", "</p>", "\u00a0", "\u2003", "\u3000", " \u00a0 ", "\t\n\f ", "\u0085", "\u00a0x", "<!-- c -->", "a&b;c", "1 < 2 && 3 > 2"}
 
 type domGen struct {
 	r       *rand.Rand
@@ -128,7 +128,9 @@ type srcGen struct {
 var srcBlock = []string{"div", "p", "section", "ul", "h1", "article", "blockquote", "pre"}
 var srcInline = []string{"span", "b", "i", "em", "a", "strong", "code"}
 var srcVoid = []string{"br", "img", "input", "hr"}
-var srcTexts = []string{"word", "two words", "a &lt; b", "x &amp; y", "&quot;q&quot;", "it&#39;s", "&lt;b&gt;bold&lt;/b&gt;", "a &lt; b &amp; c;", "semi; colon", "caf&eacute;", "1 &gt; 0", "&copy; 2024", "tab\there"}
+var srcTexts = []string{"word", "two words", "a &lt; b", "x &amp; y", "&quot;q&quot;", "it&#39;s", "&lt;b&gt;bold&lt;/b&gt;", "a &lt; b &amp; c;", "semi; colon", "caf&eacute;", "1 &gt; 0", "&copy; 2024", "tab\there",
+	// text that consists of spaces HTML does not collapse (no-break space, em space, ideographic space): content, like any other character
+	"&nbsp;", "&#160;", "&emsp;", "\u3000", "&nbsp;&nbsp;", "a&nbsp;b", "&nbsp;x"}
 var srcAttrVals = []string{"v", "a b", "a &amp; b", "&quot;q&quot;", "say &quot;hi&quot; &amp; bye", "&lt;tag&gt;", "x=1&amp;y=2", "it&#39;s", "", "  padded  ", "a;b", "&amp;amp;",
 	// interior white space is part of the value: runs of blanks, tabs and line breaks, written literally or as character references
 	"John  Smith", "dd  mm   yyyy", "line 1&#10;line 2", "a&#9;b", "first line\nsecond line", "a\tb", "x &#32; y", "p1\n\n  p2"}
@@ -247,7 +249,9 @@ func (g *srcGen) fragment() string {
 
 var wsRe = regexp.MustCompile(`\s+`)
 
-func normText(s string) string { return strings.TrimSpace(wsRe.ReplaceAllString(s, " ")) }
+// normText: runs of ASCII white space (what HTML collapses) become one blank, ASCII white space at the ends goes; every other character -
+// the no-break space and the other Unicode spaces included - is content
+func normText(s string) string { return strings.Trim(wsRe.ReplaceAllString(s, " "), " \t\n\r\f") }
 
 // canonTree: elements, attribute names and (trimmed) values, non-whitespace text runs, doctype; comments dropped.
 func canonTree(nodes []*html.Node) []any {
